@@ -20,6 +20,11 @@ import (
 )
 
 // Rule names (first component of the obligation keys).
+// OffsetsFallback, when set, decides "every table id that reaches the CRC code has its offsets computed by the header parser" by
+// tracing both functions for all 256 ids (package tables); used when the header parser's early return is not selected by one
+// predicate call. It reports whether it emitted a verdict under rule/key.
+var OffsetsFallback func(p *load.Program, r *report.Report, rule, key string) bool
+
 const (
 	RuleA = "C09a" // CRC gate, input side
 	RuleC = "C09c" // no data without check
